@@ -3,7 +3,14 @@ package props
 import (
 	"bytes"
 	"fmt"
+	"io/ioutil"
+	"os"
+	"path/filepath"
 	"regexp"
+	"sort"
+	"strings"
+
+	"github.com/akalin/gopar/par2"
 
 	"verifh/core"
 	"verifh/envfs"
@@ -20,6 +27,7 @@ type p2Case struct {
 	Extra       []string      `json:"extra,omitempty"`  // unrelated files to drop beside the set (C02)
 	FailWrite   int           `json:"failwrite,omitempty"` // C02: the k-th write during Repair fails without effect (0 = none)
 	AutoPrune   bool          `json:"autoprune,omitempty"` // C16: delete recovery files so that exactly as many blocks remain as slices are unfindable
+	DiskTwin    bool          `json:"disktwin,omitempty"`  // additionally run the same directory through the exported API on a real directory and require the same observations
 }
 
 // clause selection
@@ -102,6 +110,10 @@ func runP2(c *p2Case, r *core.Rec, cl p2Clauses) *p2Run {
 	}
 	run := &p2Run{S: s, T: t}
 	o := &run.O
+	var twinStart *envfs.FS
+	if c.DiskTwin && c.FailWrite == 0 {
+		twinStart = fs.Clone()
+	}
 	vfs := fs.Clone()
 	s.ObserveVerify(vfs, c.G, o)
 	if c.FailWrite > 0 {
@@ -122,6 +134,9 @@ func runP2(c *p2Case, r *core.Rec, cl p2Clauses) *p2Run {
 	r.AddTransitions(2)
 
 	r.Outcome(fmt.Sprintf("v:%s/%v r:%s/%d k=%d n=%d intact=%v", errClass(o.VerifyErr), o.Counts, errClass(o.RepairErr), len(o.RepairedPaths), t.K, t.N, t.AllIntact))
+	if twinStart != nil && o.VerifyPanic == nil && o.RepairPanic == nil {
+		diskTwinP2(s, twinStart, o, c, r)
+	}
 
 	// panics are violations of every property's implicit "terminates normally"
 	if o.VerifyPanic != nil {
@@ -244,4 +259,80 @@ func runP2(c *p2Case, r *core.Rec, cl p2Clauses) *p2Run {
 		}
 	}
 	return run
+}
+
+var twinSeq int
+
+// materialize writes an in-memory directory under root.
+func materialize(root string, files map[string][]byte) {
+	for p, b := range files {
+		full := filepath.Join(root, p)
+		os.MkdirAll(filepath.Dir(full), 0755)
+		if err := ioutil.WriteFile(full, b, 0644); err != nil {
+			panic(err)
+		}
+	}
+}
+
+// readTree returns path (relative to root, with a leading slash) -> content.
+func readTree(root string) map[string][]byte {
+	m := map[string][]byte{}
+	filepath.Walk(root, func(p string, info os.FileInfo, err error) error {
+		if err == nil && !info.IsDir() {
+			b, _ := ioutil.ReadFile(p)
+			m[strings.TrimPrefix(p, root)] = b
+		}
+		return nil
+	})
+	return m
+}
+
+// diskTwinP2 runs the same damaged directory through the EXPORTED entry points (default filesystem seam, real
+// directory listing) and requires the observations of the in-memory run: the oracle has judged that run, so any
+// difference is a defect of the seam (or state leaking between the two).
+func diskTwinP2(s *scen.P2Set, start *envfs.FS, o *scen.P2Obs, c *p2Case, r *core.Rec) {
+	twinSeq++
+	root := filepath.Join(workerScratch(), fmt.Sprintf("twin-%d", twinSeq))
+	os.RemoveAll(root)
+	defer os.RemoveAll(root)
+	materialize(root, start.Files)
+	index := filepath.Join(root, s.Index)
+	g := c.G
+	if g <= 0 {
+		g = 1
+	}
+	var vres par2.VerifyResult
+	var verr, rerr error
+	var rres par2.RepairResult
+	if pi := core.Catch(func() { vres, verr = par2.Verify(index, par2.VerifyOptions{NumGoroutines: g}) }); pi != nil {
+		r.Violate("disk-verify-panic:"+pi.Frame, pi.Value+"\n"+pi.Stack)
+		return
+	}
+	if pi := core.Catch(func() { rres, rerr = par2.Repair(index, par2.RepairOptions{NumGoroutines: g, DoubleCheck: c.DoubleCheck}) }); pi != nil {
+		r.Violate("disk-repair-panic:"+pi.Frame, pi.Value+"\n"+pi.Stack)
+		return
+	}
+	r.AddTransitions(2)
+	r.Count("disk_twins", 1)
+	if (verr == nil) != (o.VerifyErr == nil) || (verr == nil && vres.ShardCounts != o.Counts) {
+		r.Violatef("disk-run-differs-from-in-memory-run:verify", "real directory: %v %+v; in-memory: %v %+v", verr, vres.ShardCounts, o.VerifyErr, o.Counts)
+	}
+	if (rerr == nil) != (o.RepairErr == nil) {
+		r.Violatef("disk-run-differs-from-in-memory-run:repair-error", "real directory: %v; in-memory: %v", rerr, o.RepairErr)
+	}
+	var a, b []string
+	for _, p := range rres.RepairedPaths {
+		a = append(a, strings.TrimPrefix(filepath.Clean(p), root))
+	}
+	for _, p := range o.RepairedPaths {
+		b = append(b, filepath.Clean(p))
+	}
+	sort.Strings(a)
+	sort.Strings(b)
+	if strings.Join(a, "|") != strings.Join(b, "|") {
+		r.Violatef("disk-run-differs-from-in-memory-run:repaired-paths", "real directory: %v; in-memory: %v", a, b)
+	}
+	if d := envfs.Diff(readTree(root), o.After); len(d) > 0 {
+		r.Violatef("disk-run-differs-from-in-memory-run:final-directory", "after Repair the real directory differs from the in-memory one in %v", d)
+	}
 }
